@@ -335,6 +335,30 @@ pub fn gen_c08(args: &Args) {
         }
         w.emit(merge(&[base_event("c08", &site, date, &p), json!({"a": res_json(&a), "b": res_json(&b)})]));
     }
+    // band stratum: interval-Isha methods where the Sun culminates between the sunrise altitude (-0.83) and 0 degrees
+    // (|lat| 66.5..67.6 around the hemisphere's winter solstice): Maghrib exists, the hidden angle-0 Isha does not.
+    // This is where the known findings F2 / F3 live, so every run meets them and anything else there is reported.
+    for i in 0..(n / 25) {
+        let north = r.chance(1, 2);
+        let y = r.range(1600, 2399) as i32;
+        let sol = if north { ymd(y, 12, 21) } else { ymd(y, 6, 21) };
+        let date = sol + chrono::Duration::days(r.range(-12, 12));
+        let lat = (665_000 + r.range(0, 11_000)) * if north { 1 } else { -1 };
+        let lon = r.range(-1_800_000, 1_800_000);
+        let site = Site { dlat: 0, lat, lon, el: if r.chance(1, 2) { 0 } else { r.range(0, 3000) }, gmt: natural_gmt(lon) };
+        let mut p = P::of_method(7 + (i % 2) as usize);
+        p.pol = *r_pick(&mut r, &[1usize, 2, 3, 4, 5, 6, 7, 8, 9, 10, 13]);
+        p.nl = if r.chance(1, 2) { 485_000 } else { r.range(-600_000, 600_000) };
+        p.rnd = r.range(0, 3) as usize;
+        let mut pn = p.clone();
+        pn.pol = 0;
+        let a = call(&site, date, &pn);
+        let b = call(&site, date, &p);
+        if !(a.ok() && b.ok()) {
+            continue;
+        }
+        w.emit(merge(&[base_event("c08", &site, date, &p), json!({"a": res_json(&a), "b": res_json(&b)})]));
+    }
     let session = session_flush(&mut w);
     let k = w.finish();
     println!("{}", json!({"session": session, "events": k}));
